@@ -164,6 +164,38 @@ pub fn run(o: &Opts) -> Report {
         }
         run_expect(&mut rep, o, "inherited-args_override_self-lost-below", cases);
     }
+    {
+        use crate::pcorr::*;
+        use clap::parser::ValueSource;
+        // a positional with a bounded, variable number of values and no explicit action is `Set`: split into two
+        // occurrences by a flag it is a repeat (conflict), or last-wins with self-override
+        let mkp = |num: (usize, Option<usize>), over: bool| { let mut c = CmdS { name: "prog".into(), ..Default::default() };
+            c.settings.args_override_self = over;
+            c.args.push(ArgS { id: "f".into(), short: Some('f'), action: Some("setTrue"), ..Default::default() });
+            c.args.push(ArgS { id: "p".into(), num_vals: Some(num), ..Default::default() });
+            c };
+        let mut kinds = vec![]; let mut oks: Vec<(CmdS, Vec<Vec<u8>>, Expect)> = vec![];
+        for num in [(1, Some(2)), (1, Some(3)), (0, Some(1))] {
+            kinds.push((mkp(num, false), bv(&["prog", "a", "-f", "b"]), clap::error::ErrorKind::ArgumentConflict));
+            oks.push((mkp(num, true), bv(&["prog", "a", "-f", "b"]), Box::new(|m| want_occs(m, &[], "p", &[&["b"]]))));
+            oks.push((mkp(num, false), bv(&["prog", "-f", "a"]), Box::new(|m| want_occs(m, &[], "p", &[&["a"]]))));
+        }
+        run_expect_kind(&mut rep, o, "repeated-set-positional-accepted", kinds);
+        run_expect(&mut rep, o, "set-positional-keeps-earlier-occurrence", oks);
+        // a REQUIRED flag that is absent from an accepted line (the requirement is waived by a present conflicting arg, or
+        // by a subcommand under subcommand_negates_reqs) still has its action's default: false / true / 0
+        let mkr = |action: &'static str, via_sub: bool| { let mut c = CmdS { name: "prog".into(), ..Default::default() };
+            c.args.push(ArgS { id: "req".into(), long: Some("req".into()), action: Some(action), required: true, ..Default::default() });
+            c.args.push(ArgS { id: "alt".into(), long: Some("alt".into()), action: Some("setTrue"), blacklist: vec!["req".into()], ..Default::default() });
+            if via_sub { c.settings.subcommand_negates_reqs = true; c.subs.push(CmdS { name: "sub".into(), ..Default::default() }); }
+            c };
+        let mut cases: Vec<(CmdS, Vec<Vec<u8>>, Expect)> = vec![];
+        for (action, dflt) in [("setTrue", "false"), ("setFalse", "true"), ("count", "0")] {
+            cases.push((mkr(action, false), bv(&["prog", "--alt"]), Box::new(move |m| { want_occs(m, &[], "req", &[&[dflt]])?; want_source(m, "req", Some(ValueSource::DefaultValue)) })));
+            cases.push((mkr(action, true), bv(&["prog", "sub"]), Box::new(move |m| { want_occs(m, &[], "req", &[&[dflt]])?; want_source(m, "req", Some(ValueSource::DefaultValue)) })));
+        }
+        run_expect(&mut rep, o, "absent-required-flag-has-no-default", cases);
+    }
     crate::pcorr::run_generic(&mut rep, o, 0xC07);
     rep
 }
